@@ -195,6 +195,24 @@ Definition Hist_cumulative (bounds : list Z) (counts : list N) (obuckets : list 
   (forall k, (k < length bounds)%nat -> nth k (map snd obuckets) 0 = sum_n (firstn (S k) counts)) /\
   ocount = sum_n counts.
 
+(** ** exponential histograms: the exposed native-histogram buckets (index -> count, positive and negative
+    range separately) are the SDK's buckets with the index shifted by one; empty buckets do not matter. *)
+Definition nonzero (l : list (Z * N)) : list (Z * N) := filter (fun p => negb (snd p =? 0)) l.
+
+Definition expo_expected (offset : Z) (counts : list N) : list (Z * N) :=
+  combine (map (fun i => (offset + 1 + Z.of_nat i)%Z) (seq 0 (length counts))) counts.
+
+Definition bucket_eqb (p q : Z * N) : bool := (fst p =? fst q)%Z && (snd p =? snd q).
+
+Definition expo_side_ok (offset : Z) (counts : list N) (obs : list (Z * N)) : bool :=
+  list_eqb bucket_eqb (nonzero obs) (nonzero (expo_expected offset counts)).
+
+Definition expo_ok (scale : Z) (zero_count : N) (poff : Z) (pcounts : list N) (noff : Z) (ncounts : list N)
+                   (count : N) (sum : Z)
+                   (oschema : Z) (ozero : N) (opos oneg : list (Z * N)) (ocount : N) (osum : Z) : bool :=
+  (oschema =? scale)%Z && (ozero =? zero_count) && expo_side_ok poff pcounts opos && expo_side_ok noff ncounts oneg &&
+  (ocount =? count) && (osum =? sum)%Z.
+
 (** ** info series *)
 Definition info_ok (no_target no_scope : bool) (target_present scope_present : bool) : bool :=
   Bool.eqb target_present (negb no_target) && Bool.eqb scope_present (negb no_scope).
